@@ -3,7 +3,7 @@ import vlib, mgrcheck
 from gen import mgr
 
 PROP = 'C05'
-ASPECTS = {'isolation', 'valid', 'values', 'members'}
+ASPECTS = {'isolation', 'valid', 'values', 'members', 'sharedvals'}
 
 
 def concurrent_creation(tier, scripts=None):
